@@ -22,6 +22,8 @@ CONSTANTS
                 \* "rel8": RefVar short iff operand - (pc+2) fits a signed byte (68000 Bcc, 8086 JMP)
   VarShort, VarLong,   \* sizes of the two encodings of RefVar
   Padding,      \* TRUE: the target pads odd addresses before word-sized statements (68000, MSP430)
+  Pages,        \* operands of Assume(page) items ({}: none): ASSUME DPR:page (6809), ASSUME B:page (65CE02) declare
+                \* the content of the direct/base page register; direct addressing reaches page*256 .. page*256+255
   SelfKinds     \* which of the statement kinds {"labs", "lvar", "lrel"} are in the alphabet: a reference
                 \* statement that carries a label on its own line and whose operand may be that very label,
                 \* the PC symbol or another label (lab: dc.w lab / dc.w * / tab: dc.w r0-tab / lab: bra lab)
@@ -40,6 +42,7 @@ Items ==
   [k : {"rel"}, l : Labels] \cup                    \* bne l / bne.s l / jnz l   (8-bit PC-relative)
   [k : {"fill"}, n : Fills] \cup                    \* n bytes
   (IF Padding THEN {[k |-> "ins"]} ELSE {}) \cup    \* nop: word-sized instruction without operand
+  [k : {"asm"}, pg : Pages] \cup                    \* assume dpr:pg: no code, changes how later operands are sized
   {e \in [k : {"equ"}, l : Labels, l2 : Labels, d : EquOffs] : e.l # e.l2} \cup
   \* the same three reference kinds with a label l (or none) on the same line and operand t (a label - possibly
   \* l itself - or the PC symbol); df: the operand is the difference t - l (offset tables: tab: dc.w r0-tab)
@@ -74,8 +77,16 @@ EquBackward(p) ==
 \* word-sized statements start on an even address when the target pads
 Aligned(it) == Padding /\ (IsRef(it) \/ it.k = "ins" \/ (it.k = "def" /\ it.al))
 
+\* the page in force at statement j: that of the last Assume in front of it IN PROGRAM ORDER, 0 if there is none
+\* (whatever a previous pass over the same text left behind is irrelevant)
+PageAt(p, j) ==
+  LET S == {h \in 1..(j - 1) : p[h].k = "asm"} IN
+  IF S = {} THEN 0 ELSE p[CHOOSE x \in S : \A y \in S : y <= x].pg
+
 Disp8(d) == d >= -128 /\ d <= 127
-ShortOK(v, a) == IF VarMode = "abs8" THEN v >= 0 /\ v < 256 ELSE Disp8(v - (a + 2))
+ShortOK(v, a, pg) == IF VarMode = "abs8" THEN v >= 0 /\ v \div 256 = pg ELSE Disp8(v - (a + 2))
+\* a direct-page operand field holds the low byte only
+Field(short, v) == IF VarMode = "abs8" /\ short THEN v % 256 ELSE v
 
 -----------------------------------------------------------------------------
 (* Declarative side: what a resolved layout is.                            *)
@@ -105,14 +116,19 @@ Expected(p, lay, j) ==
 FixedSize(it) == CASE it.k = "def" -> 2 [] IsAbs(it) -> it.w [] IsRel(it) -> 2
                    [] it.k = "fill" -> it.n [] it.k = "ins" -> 2 [] it.k = "equ" -> 0 [] OTHER -> 0
 
+\* the value entry j encodes: a direct-form operand byte b means address page*256 + b, page = PageAt
+EncVal(p, lay, j) ==
+  IF VarMode = "abs8" /\ IsVar(p[j]) /\ lay[j].n = VarShort THEN PageAt(p, j) * 256 + lay[j].v ELSE lay[j].v
+
 \* what is wrong with entry j of lay (empty set: nothing)
 Problems(p, o, lay, j) ==
   LET it == p[j] e == lay[j] IN
   (IF e.p \in {0, 1} /\ e.a = (IF j = 1 THEN o ELSE lay[j-1].a + lay[j-1].n) + e.p THEN {} ELSE {"address"}) \cup
   (IF (e.p = 1 => Aligned(it)) /\ (Aligned(it) => e.a % 2 = 0) THEN {} ELSE {"padding"}) \cup
-  (IF IF IsVar(it) THEN e.n \in {VarShort, VarLong} /\ (e.n = VarShort => ShortOK(e.v, e.a))
+  (IF IF IsVar(it) THEN /\ e.n \in {VarShort, VarLong}
+                        /\ (e.n = VarShort => IF VarMode = "abs8" THEN e.v \in 0..255 ELSE ShortOK(e.v, e.a, 0))
       ELSE e.n = FixedSize(it) THEN {} ELSE {"size"}) \cup
-  (IF IsRef(it) => Resolved(p, lay, j) /\ e.v = Expected(p, lay, j) THEN {} ELSE {"value"}) \cup  \* every use encodes the final value
+  (IF IsRef(it) => Resolved(p, lay, j) /\ EncVal(p, lay, j) = Expected(p, lay, j) THEN {} ELSE {"value"}) \cup  \* every use encodes the final value
   (IF IsRel(it) => Disp8(e.v - (e.a + 2)) THEN {} ELSE {"range"})
 
 \* lay is a layout of p starting at o in which every reference is resolved
@@ -126,7 +142,9 @@ AddrSeq(p, ch, j, cur) ==
            n  == IF IsVar(p[j]) THEN ch[j] ELSE FixedSize(p[j])
        IN <<[a |-> cur + pd, n |-> n, p |-> pd, v |-> -1]>> \o AddrSeq(p, ch, j + 1, cur + pd + n)
 WithValues(p, lay) ==
-  [j \in 1..Len(p) |-> IF IsRef(p[j]) /\ Resolved(p, lay, j) THEN [lay[j] EXCEPT !.v = Expected(p, lay, j)] ELSE lay[j]]
+  [j \in 1..Len(p) |-> IF IsRef(p[j]) /\ Resolved(p, lay, j)
+                        THEN [lay[j] EXCEPT !.v = Field(IsVar(p[j]) /\ lay[j].n = VarShort, Expected(p, lay, j))]
+                        ELSE lay[j]]
 VarIdx(p) == {j \in 1..Len(p) : IsVar(p[j])}
 Candidates(p, o) ==
   {WithValues(p, AddrSeq(p, ch, 1, o)) : ch \in [VarIdx(p) -> {VarShort, VarLong}]}
